@@ -190,22 +190,13 @@ abbrev Tiles (S E : Int → Int) : Prop := TilesOn (fun _ => True) S E
 
 /-! ## day grids -/
 
-/-- A partition of the day numbers into periods: `gs L` = first day of the period containing day `L`,
-`gn P` = first day of the period following the one that starts on `P`. -/
-structure DayGrid where
-  gs : Int → Int
-  gn : Int → Int
-
-structure DayGrid.Laws (g : DayGrid) : Prop where
+structure GridLaws (g : DayGrid) : Prop where
   le : ∀ L, g.gs L ≤ L
   lt : ∀ L, L < g.gn (g.gs L)
   idem : ∀ L, g.gs (g.gs L) = g.gs L
   nextStart : ∀ L, g.gs (g.gn (g.gs L)) = g.gn (g.gs L)
   mono : ∀ L L', L ≤ L' → g.gs L ≤ g.gs L'
   same : ∀ L L', g.gs L ≤ L' → L' < g.gn (g.gs L) → g.gs L' = g.gs L
-
-/-- `time.Date(<day D>, 00:00:00, loc)` as unix seconds -/
-def mid (z : Zone) (D : Int) : Int := goDateSec z (D * 86400)
 
 /-- Local midnight of day `D` is well behaved in zone `z`: `time.Date` returns an instant whose wall clock is
 exactly `D 00:00:00`, and that instant is the first one of local day `D` or later
@@ -220,7 +211,7 @@ theorem MidOK.secOfDay_mid {z : Zone} {D : Int} (h : MidOK z D) : secOfDay z (mi
   unfold secOfDay; rw [h.1]; omega
 
 /-- Seconds-level tiling from a lawful day grid whose period-start midnights are well behaved. -/
-theorem tiles_of_grid (g : DayGrid) (hg : g.Laws) (z : Zone)
+theorem tiles_of_grid (g : DayGrid) (hg : GridLaws g) (z : Zone)
     (hm : ∀ P, g.gs P = P → MidOK z P) :
     Tiles (fun s => mid z (g.gs (localDay z s))) (fun s => mid z (g.gn (g.gs (localDay z s)))) := by
   have hP : ∀ L, MidOK z (g.gs L) := fun L => hm _ (hg.idem L)
@@ -291,19 +282,13 @@ theorem tiles_lift_ns {S E : Int → Int} (h : Tiles S E) :
 
 /-! ## the grids of the calendar kinds -/
 
-def dayGrid : DayGrid := ⟨fun L => L, fun P => P + 1⟩
-def weekGrid : DayGrid := ⟨fun L => L - (L + 3) % 7, fun P => P + 7⟩
-/-- periods of `k` months starting at month indices divisible by `k` (k = 1, 3, 6, 12) -/
-def monthsGrid (k : Int) : DayGrid :=
-  ⟨fun L => monthStart (k * (monthIdx L / k)), fun P => monthStart (monthIdx P + k)⟩
-
-theorem dayGrid_laws : dayGrid.Laws := by
+theorem dayGrid_laws : GridLaws dayGrid := by
   refine ⟨?_, ?_, ?_, ?_, ?_, ?_⟩ <;> intros <;> simp only [dayGrid] at * <;> omega
 
-theorem weekGrid_laws : weekGrid.Laws := by
+theorem weekGrid_laws : GridLaws weekGrid := by
   refine ⟨?_, ?_, ?_, ?_, ?_, ?_⟩ <;> intros <;> simp only [weekGrid] at * <;> omega
 
-theorem monthsGrid_laws (k : Int) (hk : k = 1 ∨ k = 3 ∨ k = 6 ∨ k = 12) : (monthsGrid k).Laws := by
+theorem monthsGrid_laws (k : Int) (hk : k = 1 ∨ k = 3 ∨ k = 6 ∨ k = 12) : GridLaws (monthsGrid k) := by
   refine ⟨?_, ?_, ?_, ?_, ?_, ?_⟩
   · intro L
     have h := monthIdx_spec L
@@ -385,7 +370,9 @@ resolving any wall clock of a Monday gives an instant of that Monday. -/
 def WeekInterOK (z : Zone) : Prop :=
   ∀ P c, weekGrid.gs P = P → 0 ≤ c → c < 86400 → localDay z (goDateSec z (P * 86400 + c)) = P
 
-theorem weekStartSec_eq {z : Zone} (hw : WeekInterOK z) (s : Int) :
+/-- pointwise form: only the intermediate of this instant has to stay on its Monday -/
+theorem weekStartSec_eq_at {z : Zone} {s : Int}
+    (hw : localDay z (goDateSec z (weekGrid.gs (localDay z s) * 86400 + secOfDay z s)) = weekGrid.gs (localDay z s)) :
     weekStartSec z s = mid z (weekGrid.gs (localDay z s)) := by
   unfold weekStartSec
   simp only
@@ -401,12 +388,32 @@ theorem weekStartSec_eq {z : Zone} (hw : WeekInterOK z) (s : Int) :
     have e : L + (-(if weekday L = 0 then 7 else weekday L) + 1) = weekGrid.gs L := by
       unfold weekday; simp only [weekGrid]; split <;> omega
     rw [e]
-    apply hw
-    · exact weekGrid_laws.idem L
-    · unfold secOfDay; omega
-    · unfold secOfDay; omega
+    exact hw
   rw [hinter]
   exact dateMidnight_civil z _
+
+theorem weekStartSec_eq {z : Zone} (hw : WeekInterOK z) (s : Int) :
+    weekStartSec z s = mid z (weekGrid.gs (localDay z s)) := by
+  apply weekStartSec_eq_at
+  apply hw
+  · exact weekGrid_laws.idem _
+  · unfold secOfDay; omega
+  · unfold secOfDay; omega
+
+/-- at a well-behaved Monday midnight the intermediate is that midnight itself -/
+theorem week_inter_at_mid {z : Zone} {P : Int} (hP : weekGrid.gs P = P) (h : MidOK z P) :
+    localDay z (goDateSec z (weekGrid.gs (localDay z (mid z P)) * 86400 + secOfDay z (mid z P)))
+      = weekGrid.gs (localDay z (mid z P)) := by
+  rw [h.localDay_mid, h.secOfDay_mid, hP, Int.add_zero]
+  exact h.localDay_mid
+
+theorem weekEndSec_eq_at {z : Zone} {s : Int}
+    (hw : localDay z (goDateSec z (weekGrid.gs (localDay z s) * 86400 + secOfDay z s)) = weekGrid.gs (localDay z s))
+    (h : MidOK z (weekGrid.gs (localDay z s))) :
+    weekEndSec z s = mid z (weekGrid.gn (weekGrid.gs (localDay z s))) := by
+  unfold weekEndSec
+  rw [weekStartSec_eq_at hw]
+  exact addDate_mid_days h 7
 
 theorem weekEndSec_eq {z : Zone} (hw : WeekInterOK z) {s : Int} (h : MidOK z (weekGrid.gs (localDay z s))) :
     weekEndSec z s = mid z (weekGrid.gn (weekGrid.gs (localDay z s))) := by
@@ -476,5 +483,304 @@ theorem yearEndSec_eq {z : Zone} {s : Int} (h : MidOK z ((monthsGrid 12).gs (loc
   rw [yearStartSec_eq]
   simp only [monthsGrid, monthIdx_monthStart] at h ⊢
   rw [addDate_mid_months h]; congr 2; omega
+
+
+/-! ## fixed-offset zones (UTC, time.FixedZone, Etc/GMT±h) -/
+
+theorem fixed_lookup (o : Int) (s : Int) : (Zone.mk o []).lookup s = (o, alpha, omega) := rfl
+theorem fixed_offsetAt (o : Int) (s : Int) : (Zone.mk o []).offsetAt s = o := rfl
+theorem fixed_localSecs (o : Int) (s : Int) : localSecs (Zone.mk o []) s = s + o := rfl
+
+theorem fixed_goDateSec (o : Int) (u : Int) : goDateSec (Zone.mk o []) u = u - o := by
+  unfold goDateSec
+  rw [fixed_lookup]
+  simp only [fixed_offsetAt]
+  split
+  · split <;> rfl
+  · rename_i h; simp at h; omega
+
+theorem fixed_MidOK (o D : Int) : MidOK (Zone.mk o []) D := by
+  unfold MidOK mid localDay
+  simp only [fixed_goDateSec, fixed_localSecs]
+  refine ⟨by omega, fun s => by omega⟩
+
+theorem fixed_WeekInterOK (o : Int) : WeekInterOK (Zone.mk o []) := by
+  intro P c _ h0 h1
+  unfold localDay
+  simp only [fixed_goDateSec, fixed_localSecs]
+  omega
+
+/-! ## floor arithmetic of the fixed period -/
+
+/-- `x` rounded down to a multiple of `d` -/
+def floorTo (d x : Int) : Int := x / d * d
+
+theorem floorTo_le {d : Int} (hd : 0 < d) (x : Int) : floorTo d x ≤ x :=
+  Int.ediv_mul_le x (by omega)
+
+theorem lt_floorTo_add {d : Int} (hd : 0 < d) (x : Int) : x < floorTo d x + d := by
+  have := Int.lt_ediv_add_one_mul_self x hd
+  rw [Int.add_mul, Int.one_mul] at this
+  exact this
+
+theorem floorTo_floorTo {d : Int} (hd : 0 < d) (x : Int) : floorTo d (floorTo d x) = floorTo d x := by
+  unfold floorTo; rw [Int.mul_ediv_cancel _ (by omega)]
+
+theorem floorTo_add_self {d : Int} (hd : 0 < d) (x : Int) : floorTo d (floorTo d x + d) = floorTo d x + d := by
+  unfold floorTo
+  have e : x / d * d + d = (x / d + 1) * d := by rw [Int.add_mul, Int.one_mul]
+  rw [e, Int.mul_ediv_cancel _ (by omega)]
+
+theorem floorTo_mono {d : Int} (hd : 0 < d) {x y : Int} (h : x ≤ y) : floorTo d x ≤ floorTo d y := by
+  unfold floorTo
+  exact Int.mul_le_mul_of_nonneg_right (Int.ediv_le_ediv hd h) (by omega)
+
+theorem floorTo_eq_of_between {d : Int} (hd : 0 < d) {x u : Int} (h1 : floorTo d x ≤ u) (h2 : u < floorTo d x + d) :
+    floorTo d u = floorTo d x := by
+  unfold floorTo at *
+  have a : x / d ≤ u / d := (Int.le_ediv_iff_mul_le hd).2 h1
+  have b : u / d < x / d + 1 := (Int.ediv_lt_iff_lt_mul hd).2 (by rw [Int.add_mul, Int.one_mul]; exact h2)
+  have : u / d = x / d := by omega
+  rw [this]
+
+/-- Go's `since - since % d` (truncated `%`) followed by the round-down correction is `floorTo`. -/
+theorem trunc_fix_eq_floor {d : Int} (hd : 0 < d) (x : Int) :
+    (if x - Int.tmod x d > x then x - Int.tmod x d - d else x - Int.tmod x d) = floorTo d x := by
+  unfold floorTo
+  by_cases hx : 0 ≤ x
+  · rw [Int.tmod_eq_emod_of_nonneg hx]
+    have h1 := Int.emod_nonneg x (show d ≠ 0 by omega)
+    have h2 := Int.emod_def x d
+    rw [if_neg (by omega)]
+    rw [Int.mul_comm] at h2; omega
+  · have ht : Int.tmod x d = -((-x) % d) := by
+      rw [← Int.tmod_eq_emod_of_nonneg (by omega : 0 ≤ -x), Int.neg_tmod]; omega
+    rw [ht]
+    have h1 := Int.emod_nonneg (-x) (show d ≠ 0 by omega)
+    have h3 := Int.emod_lt_of_pos (-x) hd
+    have h2 := Int.emod_def (-x) d
+    generalize hr : (-x) % d = r at *
+    generalize hq : (-x) / d = q at *
+    by_cases hr0 : r = 0
+    · subst hr0
+      rw [if_neg (by omega)]
+      have : x / d = -q := by
+        have := (Int.ediv_emod_unique (a := x) (r := 0) (q := -q) hd).2 ⟨by rw [Int.mul_neg]; omega, by omega, hd⟩
+        exact this.1
+      rw [this, Int.neg_mul, Int.mul_comm]; omega
+    · rw [if_pos (by omega)]
+      have : x / d = -q - 1 := by
+        have := (Int.ediv_emod_unique (a := x) (r := d - r) (q := -q - 1) hd).2
+          ⟨by rw [Int.mul_sub, Int.mul_neg, Int.mul_one]; omega, by omega, by omega⟩
+        exact this.1
+      rw [this, Int.sub_mul, Int.neg_mul, Int.one_mul, Int.mul_comm]; omega
+
+theorem wrap64_id {x : Int} (h1 : minI64 ≤ x) (h2 : x ≤ maxI64) : wrap64 x = x := by
+  unfold wrap64; unfold minI64 maxI64 at *; omega
+
+theorem satSub_id {t e : Int} (h1 : minI64 ≤ t - e) (h2 : t - e ≤ maxI64) : satSub t e = t - e := by
+  unfold satSub; simp only
+  rw [if_neg (by omega), if_neg (by omega)]
+
+/-- Closed form of the fixed period start while `t.Sub(epoch)` does not saturate and the correction does not wrap. -/
+theorem fixedStart_eq {z : Zone} {d t : Int} (hd : 0 < d)
+    (h1 : minI64 + d ≤ t - fixedEpoch z) (h2 : t - fixedEpoch z ≤ maxI64) :
+    fixedStart z d t = fixedEpoch z + floorTo d (t - fixedEpoch z) := by
+  unfold fixedStart
+  simp only
+  generalize fixedEpoch z = e at *
+  rw [satSub_id (by omega) h2]
+  have hf := trunc_fix_eq_floor hd (t - e)
+  have hle := floorTo_le hd (t - e)
+  have hlt := lt_floorTo_add hd (t - e)
+  by_cases hc : t - e - Int.tmod (t - e) d > t - e
+  · rw [if_pos hc] at hf ⊢
+    rw [wrap64_id (by omega) (by omega), hf]
+  · rw [if_neg hc] at hf ⊢
+    rw [hf]
+
+
+
+/-! ## the timestamp generator -/
+
+/-- Invariant-based specification of the generator loop started at a period start `cur`. -/
+theorem alignedFrom_spec {R : Int → Prop} {S E : Int → Int} (h : TilesOn R S E) (to : Int) :
+    ∀ (fuel : Nat) (cur : Int), S cur = cur → (∀ t, cur ≤ t → t < to → R t) → (to - cur).toNat ≤ fuel →
+      (alignedFrom E to fuel cur).Pairwise (· < ·) ∧
+      (∀ x, x ∈ alignedFrom E to fuel cur ↔ (S x = x ∧ cur ≤ x ∧ x < to)) := by
+  intro fuel
+  induction fuel with
+  | zero =>
+    intro cur _ _ hf
+    simp only [alignedFrom]
+    refine ⟨List.Pairwise.nil, fun x => ?_⟩
+    constructor
+    · intro hx; cases hx
+    · intro ⟨_, h1, h2⟩; omega
+  | succ fuel ih =>
+    intro cur hfix hR hf
+    unfold alignedFrom
+    by_cases hc : cur < to
+    · rw [if_pos hc]
+      have hRc : R cur := hR cur (Int.le_refl _) hc
+      have hlt : cur < E cur := by have := h.lt cur hRc; omega
+      have hEfix : S (E cur) = E cur := h.endStart cur hRc
+      obtain ⟨ihp, ihm⟩ := ih (E cur) hEfix (fun t a b => hR t (by omega) b) (by omega)
+      constructor
+      · refine List.Pairwise.cons ?_ ihp
+        intro x hx
+        have := (ihm x).1 hx; omega
+      · intro x
+        rw [List.mem_cons, ihm]
+        constructor
+        · rintro (rfl | ⟨a, b, c⟩)
+          · exact ⟨hfix, Int.le_refl _, hc⟩
+          · exact ⟨a, by omega, c⟩
+        · intro ⟨a, b, c⟩
+          by_cases hx : x = cur
+          · exact Or.inl hx
+          · refine Or.inr ⟨a, ?_, c⟩
+            by_cases hE : E cur ≤ x
+            · exact hE
+            · exfalso
+              have := h.same cur x hRc (hR x b c) (by omega) (by omega)
+              omega
+    · rw [if_neg hc]
+      refine ⟨List.Pairwise.nil, fun x => ?_⟩
+      constructor
+      · intro hx; cases hx
+      · intro ⟨_, h1, h2⟩; omega
+
+/-- With at least `to - cur` fuel the fuel is never exhausted: the result does not depend on it. -/
+theorem alignedFrom_fuel_irrel {R : Int → Prop} {S E : Int → Int} (h : TilesOn R S E) (to : Int) :
+    ∀ (fuel fuel' : Nat) (cur : Int), S cur = cur → (∀ t, cur ≤ t → t < to → R t) →
+      (to - cur).toNat ≤ fuel → (to - cur).toNat ≤ fuel' →
+      alignedFrom E to fuel cur = alignedFrom E to fuel' cur := by
+  intro fuel
+  induction fuel with
+  | zero =>
+    intro fuel' cur _ _ hf _
+    cases fuel' with
+    | zero => rfl
+    | succ n => simp only [alignedFrom]; rw [if_neg (by omega)]
+  | succ fuel ih =>
+    intro fuel' cur hfix hR hf hf'
+    cases fuel' with
+    | zero => simp only [alignedFrom]; rw [if_neg (by omega)]
+    | succ n =>
+      simp only [alignedFrom]
+      by_cases hc : cur < to
+      · rw [if_pos hc, if_pos hc]
+        have hRc : R cur := hR cur (Int.le_refl _) hc
+        have hlt : cur < E cur := by have := h.lt cur hRc; omega
+        rw [ih n (E cur) (h.endStart cur hRc) (fun t a b => hR t (by omega) b) (by omega) (by omega)]
+      · rw [if_neg hc, if_neg hc]
+
+
+
+/-! ## sorted zone tables: `time.Date` only depends on the offset function -/
+
+/-- transition instants are non-decreasing and not below `lo` -/
+def sortedFrom (lo : Int) : List (Int × Int) → Prop
+  | [] => True
+  | (w, _) :: rest => lo ≤ w ∧ sortedFrom w rest
+
+/-- the zone table is sorted (as Go's loader guarantees for `tx`) -/
+def ZoneSorted (z : Zone) : Prop := sortedFrom alpha z.trans
+
+theorem lookupFrom_start_ge : ∀ (l : List (Int × Int)) (off start u : Int), sortedFrom start l →
+    start ≤ (lookupFrom off start l u).2.1
+  | [], _, _, _, _ => Int.le_refl _
+  | (w, o) :: rest, off, start, u, h => by
+    unfold lookupFrom
+    split
+    · exact Int.le_refl _
+    · have := lookupFrom_start_ge rest o w u h.2
+      have := h.1; omega
+
+/-- every instant inside the segment returned by `lookup` has the returned offset -/
+theorem lookupFrom_seg : ∀ (l : List (Int × Int)) (off start u : Int), sortedFrom start l →
+    ∀ v, (lookupFrom off start l u).2.1 ≤ v → v < (lookupFrom off start l u).2.2 →
+      (lookupFrom off start l v).1 = (lookupFrom off start l u).1
+  | [], _, _, _, _ => fun _ _ _ => rfl
+  | (w, o) :: rest, off, start, u, h => by
+    intro v
+    unfold lookupFrom
+    by_cases hu : u < w
+    · rw [if_pos hu]
+      intro _ h2
+      rw [if_pos h2]
+    · rw [if_neg hu]
+      intro h1 h2
+      have hge := lookupFrom_start_ge rest o w u h.2
+      rw [if_neg (by omega)]
+      exact lookupFrom_seg rest o w u h.2 v h1 h2
+
+/-- The zone resolution of `time.Date` written with the offset function only: the start/end bookkeeping of the two
+lookups is an optimisation.  (Hence boundaries reported by `ZoneBounds` at which the offset does not change
+are irrelevant for the model.) -/
+theorem goDateSec_eq_offsets (z : Zone) (hz : ZoneSorted z) (u : Int) :
+    goDateSec z u = u - z.offsetAt (u - z.offsetAt u) := by
+  unfold goDateSec Zone.offsetAt
+  have hseg := lookupFrom_seg z.trans z.init alpha u hz
+  unfold Zone.lookup at *
+  generalize hlk : lookupFrom z.init alpha z.trans u = r at *
+  obtain ⟨offset, start, end_⟩ := r
+  simp only at hseg ⊢
+  by_cases h0 : offset = 0
+  · subst h0
+    simp only [ne_eq, not_true_eq_false, if_false, Int.sub_zero]
+    rw [hlk]; simp
+  · rw [if_pos h0]
+    by_cases hout : u - offset < start ∨ u - offset ≥ end_
+    · rw [if_pos hout]
+    · rw [if_neg hout]
+      rw [hseg (u - offset) (by omega) (by omega)]
+
+/-! ## soundness of the executable midnight check -/
+
+theorem segAgree_sound {m c off : Int} {lo hi : Option Int} (h : segAgree m c off lo hi = true) (s : Int)
+    (hlo : ∀ l, lo = some l → l ≤ s) (hhi : ∀ u, hi = some u → s < u) :
+    (m ≤ s + off ↔ c ≤ s) := by
+  unfold segAgree at h
+  simp only [Bool.or_eq_true, beq_iff_eq] at h
+  rcases h with (h | h) | h
+  · omega
+  · cases lo with
+    | none => simp at h
+    | some l =>
+      simp only [Bool.and_eq_true, decide_eq_true_eq] at h
+      have := hlo l rfl; omega
+  · cases hi with
+    | none => simp at h
+    | some u =>
+      simp only [Bool.and_eq_true, decide_eq_true_eq] at h
+      have := hhi u rfl; omega
+
+theorem iffOKFrom_sound {m c : Int} : ∀ (l : List (Int × Int)) (off start : Int) (lo : Option Int),
+    iffOKFrom m c off lo l = true → ∀ s, (∀ b, lo = some b → b ≤ s) →
+      (m ≤ s + (lookupFrom off start l s).1 ↔ c ≤ s)
+  | [], off, start, lo, h, s, hlo => by
+    unfold iffOKFrom at h
+    unfold lookupFrom
+    exact segAgree_sound h s hlo (fun u hu => by cases hu)
+  | (w, o) :: rest, off, start, lo, h, s, hlo => by
+    unfold iffOKFrom at h
+    simp only [Bool.and_eq_true] at h
+    unfold lookupFrom
+    by_cases hs : s < w
+    · rw [if_pos hs]
+      exact segAgree_sound h.1 s hlo (fun u hu => by cases hu; exact hs)
+    · rw [if_neg hs]
+      exact iffOKFrom_sound rest o w (some w) h.2 s (fun b hb => by cases hb; omega)
+
+theorem checkMid_sound {z : Zone} {D : Int} (h : checkMid z D = true) : MidOK z D := by
+  unfold checkMid at h
+  simp only [Bool.and_eq_true, beq_iff_eq] at h
+  refine ⟨h.1, fun s => ?_⟩
+  have := iffOKFrom_sound z.trans z.init alpha none h.2 s (fun b hb => by cases hb)
+  unfold localDay localSecs Zone.offsetAt Zone.lookup
+  rw [← this]; omega
+
 
 end ShpanVerif.Proofs.Period
